@@ -53,7 +53,7 @@ def sourcesOf (w : World) (o : PO) : Sources where
   fromFiles := match Template.subst o.env.get (selectedName w.files) with
     | .ok s => .ok s
     | _ => .error ()
-  dirBase := w.dir
+  dirBase := projDir w o
 
 /-! ## environment layers -/
 
